@@ -1406,7 +1406,21 @@ void save_option_file(FILE *pfile, bool with_doc, bool minimal)
 
          if (option->type() == OT_STRING)
          {
-            fprintf(pfile, "\"%s\"", val.c_str());
+            // the reader drops a backslash and takes the character after it
+            // literally, so '\\' and '"' have to be written escaped
+            std::string escaped;
+
+            for (const char ch : val)
+            {
+               if (  ch == '\\'
+                  || ch == '"')
+               {
+                  escaped += '\\';
+               }
+               escaped += ch;
+            }
+
+            fprintf(pfile, "\"%s\"", escaped.c_str());
          }
          else
          {
